@@ -2147,6 +2147,26 @@ def drift(tier='quick'):
         f_ = [int(fl[i + 1]) for i in range(len(fl) - 1) if fl[i] == '-f']
         evs.append({'e': 'dlog', 'i': len(evs) + 1, 'opts': fl, 'args': {'f': [f_] if f_ else []}, 'lines': lines, 'code': r['code'],
                     'log': [cli.cps(x) for x in logged]})
+    # the message log (-l <file> -M <df> ...): one "ERROR - DF:n, L:<line>" record per listed frame, before the -f filter
+    for k in range(8 if tier == 'quick' else 40):
+        acs = [0x4ea000 + rng.getrandbits(8) for _ in range(3)]
+        pool = []
+        for a in acs:
+            pool += nine_frames(a, rng)
+        pool += nine_frames(0, rng)[:4] + ['zz', '8D', '']
+        for dfx in (24, 19, 1, 12):
+            pool.append(hexs(with_ap(pack([(dfx, 5), (rng.getrandbits(3), 3), (acs[0], 24)]) + (bits_of(rng.getrandbits(56), 56) if dfx >= 16 else []), acs[1])))
+        lines = [list(dialect(rng, rng.choice(pool)).encode()) for _ in range(rng.randrange(10, 70))]
+        M = [[17], [4, 5, 20], [11, 24, 0], [21, 12, 19, 99]][k % 4]
+        fl = [[], ['-f', '17'], ['-f', '4', '-f', '11'], ['-U']][(k // 4) % 4]
+        logp = os.path.join(vlib.workdir(), 'mlog-%d.txt' % k)
+        r = cli.run_cli(cb, fl + ['-i', 'Q', '-l', logp] + [x for d in M for x in ('-M', str(d))], data=b''.join(bytes(l) + b'\n' for l in lines))
+        try:
+            logged = open(logp, 'rb').read().decode('utf-8', 'replace').split('\n')
+        except OSError:
+            logged = []
+        evs.append({'e': 'mlog', 'i': len(evs) + 1, 'opts': fl, 'args': {'M': M}, 'lines': lines, 'code': r['code'],
+                    'mlog': [cli.cps(x) for x in logged if x.startswith('ERROR - DF:')]})
     # the refresh schedule: a timed TCP feed, one applied frame after each gap; TLC judges every frame against RefreshRule.Due
     import tcp, concurrent.futures as cf
     rmodels = []
